@@ -351,6 +351,30 @@ func (g *pg) stmt(depth int) []lang.Stmt {
 	case k < 14:
 		// a call whose result is ignored: leaves a value on the stack
 		return []lang.Stmt{lang.ExprStmt{X: lang.Call{Fn: "id", Args: []lang.Expr{g.intExpr(1)}}}}
+	case k < 17 && (len(g.arrs)+len(g.strs)+len(g.hashes) > 0):
+		// a container is handed to a built-in before (or between) the loops
+		// that walk it: that changes nothing about it
+		var pool []string
+		pool = append(pool, g.arrs...)
+		pool = append(pool, g.strs...)
+		pool = append(pool, g.hashes...)
+		x := lang.Name{N: rapid.SampledFrom(pool).Draw(g.t, "usedc")}
+		var call lang.Expr
+		switch g.pick("usek", 6) {
+		case 0:
+			call = lang.Call{Fn: "join", Args: []lang.Expr{x, lang.Lit{V: lang.Str("-")}}}
+		case 1:
+			call = lang.Call{Fn: "len", Args: []lang.Expr{x}}
+		case 2:
+			call = lang.Call{Fn: "type", Args: []lang.Expr{lang.Call{Fn: "sort", Args: []lang.Expr{x}}}}
+		case 3:
+			call = lang.Call{Fn: "type", Args: []lang.Expr{lang.Call{Fn: "reverse", Args: []lang.Expr{x}}}}
+		case 4:
+			call = lang.Call{Fn: "len", Args: []lang.Expr{lang.Call{Fn: "string", Args: []lang.Expr{x}}}}
+		default:
+			call = lang.Call{Fn: "type", Args: []lang.Expr{lang.Call{Fn: "keys", Args: []lang.Expr{x}}}}
+		}
+		return []lang.Stmt{lang.ExprStmt{X: lang.Call{Fn: "id", Args: []lang.Expr{call}}}}
 	case k < 28 && len(asg) > 0:
 		n := rapid.SampledFrom(asg).Draw(g.t, "asg")
 		return []lang.Stmt{lang.Assign{N: n, X: g.intExpr(2)}}
